@@ -5,10 +5,11 @@ use common_lang_types::{
     WithEmbeddedLocation, WithLocationPostfix,
 };
 use isograph_lang_types::{
-    ClientScalarSelectableDirectiveSet, DefinitionLocation, DefinitionLocationPostfix,
-    EmptyDirectiveSet, LoadableDirectiveParameters, ObjectSelection, ObjectSelectionDirectiveSet,
-    ScalarSelection, ScalarSelectionDirectiveSet, Selection, SelectionSet, SelectionType,
-    SelectionTypePostfix, from_isograph_field_directives,
+    ArgumentKeyAndValue, ClientScalarSelectableDirectiveSet, DefinitionLocation,
+    DefinitionLocationPostfix, EmptyDirectiveSet, LoadableDirectiveParameters, ObjectSelection,
+    ObjectSelectionDirectiveSet, ScalarSelection, ScalarSelectionDirectiveSet, Selection,
+    SelectionFieldArgument, SelectionSet, SelectionType, SelectionTypePostfix,
+    VariableDeclaration, from_isograph_field_directives,
 };
 use isograph_schema::{
     BorrowedObjectSelectable, ClientFieldVariant, ClientScalarSelectable, CompilationProfile,
@@ -241,6 +242,35 @@ fn generate_reader_ast_node<TCompilationProfile: CompilationProfile>(
     }
 }
 
+/// The arguments passed to a client field or pointer, followed by the default values of
+/// its variables that are not passed. The merged selection set is built with those
+/// defaults (see `VariableContext::child_variable_context`), so the reader has to read
+/// with them as well.
+fn arguments_and_defaults(
+    selection_arguments: &[WithEmbeddedLocation<SelectionFieldArgument>],
+    variable_definitions: &[VariableDeclaration],
+    variable_context: &VariableContext,
+) -> Vec<ArgumentKeyAndValue> {
+    let mut arguments = transform_arguments_with_child_context(
+        selection_arguments
+            .iter()
+            .map(|x| x.item.into_key_and_value()),
+        variable_context,
+    );
+    for definition in variable_definitions {
+        let is_passed = selection_arguments
+            .iter()
+            .any(|arg| arg.item.name.item == definition.name.item.0);
+        if let (false, Some(default_value)) = (is_passed, definition.default_value.as_ref()) {
+            arguments.push(ArgumentKeyAndValue {
+                key: definition.name.item.unchecked_conversion(),
+                value: default_value.item.clone().into(),
+            });
+        }
+    }
+    arguments
+}
+
 #[expect(clippy::too_many_arguments)]
 fn linked_field_ast_node<TCompilationProfile: CompilationProfile>(
     object_selection: &ObjectSelection,
@@ -259,11 +289,14 @@ fn linked_field_ast_node<TCompilationProfile: CompilationProfile>(
         .unwrap_or("null".to_string());
 
     let arguments = get_serialized_field_arguments(
-        &transform_arguments_with_child_context(
-            object_selection
-                .arguments
-                .iter()
-                .map(|x| x.item.into_key_and_value()),
+        &arguments_and_defaults(
+            &object_selection.arguments,
+            match object_selectable {
+                DefinitionLocation::Server(_) => &[],
+                DefinitionLocation::Client(client_object_selectable) => {
+                    &client_object_selectable.arguments
+                }
+            },
             initial_variable_context,
         ),
         indentation_level + 1,
@@ -460,11 +493,9 @@ fn user_written_variant_ast_node<TCompilationProfile: CompilationProfile>(
         // Note: this is confusing. We're using the parent context to determine the
         // arguments **to** the client field, and the child context (above) for the
         // refetch paths **within** the client field.
-        &transform_arguments_with_child_context(
-            scalar_field_selection
-                .arguments
-                .iter()
-                .map(|x| x.item.into_key_and_value()),
+        &arguments_and_defaults(
+            &scalar_field_selection.arguments,
+            &nested_client_scalar_selectable.arguments,
             initial_variable_context,
         ),
         indentation_level + 1,
